@@ -236,9 +236,9 @@ func (p *Proc) Call(rq Req, deadline time.Duration) Rep {
 		return rp
 	case <-time.After(deadline):
 		// A verdict "does not return" must be a fact about the call, not about the machine: a worker that is still
-		// burning CPU when its deadline passes (a starved machine, a long computation) gets more time, up to four more
+		// burning CPU when its deadline passes (a starved machine, a long computation) gets more time, up to two more
 		// deadlines; one whose CPU time stands still is blocked, and is reported at once.
-		for ext := 0; ext < 4 && cpuAdvances(p.cmd.Process.Pid); ext++ {
+		for ext := 0; ext < 2 && cpuAdvances(p.cmd.Process.Pid); ext++ {
 			select {
 			case r := <-ch:
 				if r.err == nil && len(r.line) > 0 {
